@@ -432,6 +432,9 @@ pub fn synthetic_project(seed: u64) -> Project {
         enum_decl = "export enum Color { Red = \"red\", Green = \"green\" }\nexport enum Flags {\n  None = 0,\n  Read = 1 << 0,\n  Write = 1 << 1,\n  Both = Read | Write,\n  Len = \"abc\".length,\n}\n".to_string();
     }
     let use_generic = rng.chance(1, 3);
+    // the other files declare a generic of the same name with another shape (same-named types in
+    // two files, instantiated with the same arguments)
+    let own_generic = use_generic && rng.chance(1, 2);
     for i in 0..n_types {
         let kind = rng.below(10);
         let r = |rng: &mut Rng| names[rng.below(n_types)].clone();
@@ -450,7 +453,13 @@ pub fn synthetic_project(seed: u64) -> Project {
                     6 => format!("[{}, number]", r(&mut rng)),
                     7 => format!("Record<string, {}>", r(&mut rng)),
                     8 => format!("Partial<{}>", r(&mut rng)),
-                    9 if use_generic => format!("Box<{}>", r(&mut rng)),
+                    9 if use_generic => {
+                        if rng.chance(1, 2) {
+                            format!("Box<{}>", ["string", "number", "boolean"][rng.below(3)])
+                        } else {
+                            format!("Box<{}>", r(&mut rng))
+                        }
+                    }
                     10 if use_enum => "Color".to_string(),
                     11 if poison && rng.chance(1, 2) => ["Date", "bigint", "Map<string, number>", "Set<string>"][rng.below(4)].to_string(),
                     _ => match rng.below(14) {
@@ -558,10 +567,15 @@ pub fn synthetic_project(seed: u64) -> Project {
                 v.push("Color");
                 v.push("Flags");
             }
-            if use_generic {
+            if use_generic && !own_generic {
                 v.push("Box");
             }
-            src.push_str(&format!("import {{ {} }} from \"./entry\";\n", v.join(", ")));
+            if !v.is_empty() {
+                src.push_str(&format!("import {{ {} }} from \"./entry\";\n", v.join(", ")));
+            }
+            if own_generic {
+                src.push_str(&format!("export type Box<T> = {{ boxed{}: T; n?: number }};\n", k));
+            }
         }
         for d in &decls[k] {
             src.push_str(d);
